@@ -93,7 +93,7 @@ def run(ctx):
     ctx.rule('C07.errpath', 'nothing is called on the Err path after the failure besides conversions')
     for cfg in cfgs:
         facts = ctx.facts(cfg)
-        check_cfg(ctx, facts, cfg)
+        ctx.guard('C07.analysable', check_cfg, ctx, facts, cfg)
 
 
 def check_cfg(ctx, facts, cfg):
